@@ -1049,6 +1049,158 @@ fn corpus() -> Vec<(&'static str, Case)> {
     v
 }
 
+// ---------------------------------------------------------------------------------------------
+// value lists aimed at the limit (round 7; class of seed C09-8): the AGGREGATE size of a value list against `max`.
+//
+// `gen_case` picks `max` first and draws values of mixed widths (1-24 bytes), so the sum of the value widths lands
+// within a few bytes of the limit only by accident; a size ESTIMATE in the writer (a fast path guarded by
+// `min + n*W <= max`, a pre-computed chunk count, a `reserve`d capacity treated as a bound, …) that is off by one byte
+// per value is wrong only in a window n bytes wide right below the true size, and only when (almost) every value has
+// the width W the estimate assumes.  Here the value list is fixed first — n values of one uniform rendered width
+// (24 = ryu's maximum, 23, 3, or a 24/23 mix, or all-wide-but-one) — and then EVERY limit in the critical window is
+// visited: with L = the exact size of the one-payload message, all of L-max in -(n+4) ..= +3 (so: from "fits with
+// more than a byte per value to spare" over "fits exactly" to "3 bytes too long"), plus the alignment points of the
+// two-payload split.  The window is scanned by the NAME length on one long-lived writer (so the real default limits
+// 1432 / 8192 are among the scanned limits, and every write is followed by a drain), each write checked by model
+// correspondence (counts + bytes) and all drain oracles.
+
+/// a finite f64 whose shortest (ryu) text is exactly `width` bytes long (3 ..= 24)
+fn f64_of_width(r: &mut Rng, width: usize) -> f64 {
+    for _ in 0..10_000 {
+        let v = match width {
+            // sign, 17 digits, point, e-ddd
+            24 => f64::from_bits((1u64 << 63) | ((r.range(1, 600) as u64) << 52) | (r.next() >> 12)),
+            23 => {
+                if r.chance(1, 2) {
+                    f64::from_bits(((r.range(1, 600) as u64) << 52) | (r.next() >> 12))
+                } else {
+                    f64::from_bits((1u64 << 63) | ((r.range(1400, 2000) as u64) << 52) | (r.next() >> 12))
+                }
+            }
+            3 => (r.below(10) as f64) + if r.chance(1, 2) { 0.5 } else { 0.0 },
+            _ => f64::from_bits(r.next()),
+        };
+        if v.is_finite() && ryu_text(v).len() == width {
+            return v;
+        }
+    }
+    match width {
+        24 => -2.2250738585072014e-308,
+        23 => 2.2250738585072014e-308,
+        _ => 1.5,
+    }
+}
+
+/// one case: `n` values of the width mix `mix` written under names of every length that moves the one-payload size
+/// through the critical window around `max` (see above).  `max_hint` = None: the limit is derived from the list
+/// (`L(name_len = n + 6)`), Some(m): `n` is ignored and derived from `m` instead (default limits).
+fn gen_aimed_case(r: &mut Rng, n: usize, mix: usize, max_hint: Option<usize>, stride: usize) -> Case {
+    let lp = r.chance(1, 2);
+    let kind = if r.chance(1, 2) { b'h' } else { b'd' };
+    let prefix: Option<String> = if r.chance(1, 2) { Some(r.pick_str(&["p", "svc.eu", "", "é"]).to_string()) } else { None };
+    let globals = if r.chance(1, 2) { gen_labels(r, 2, false) } else { vec![] };
+    let labels = if r.chance(1, 2) { gen_labels(r, 2, false) } else { vec![] };
+    let rate = if r.chance(1, 3) { Some(*r.pick(&[1.0, 0.5, 0.3333333333333333, 1e-7])) } else { None };
+    let probe = Call { kind, name: String::new(), labels: labels.clone(), vals: Vals::F(vec![]), ts: None, rate, prefix: prefix.clone(), globals: globals.clone() };
+    // everything but the name and the values: "<prefix>." + "|h" + "|@rate" + "|#tags" + "\n"
+    let tags = probe.tag_texts();
+    let fixed = prefix.as_ref().map_or(0, |p| p.len() + 1)
+        + 2
+        + rate.map_or(0, |x| 2 + ryu_text(x).len())
+        + if tags.is_empty() { 0 } else { 2 + tags.iter().map(|t| t.len()).sum::<usize>() + tags.len() - 1 }
+        + 1;
+    let width_of = |i: usize, n: usize| -> usize {
+        match mix {
+            0 => 24,
+            1 => 23,
+            2 => if i % 2 == 0 { 24 } else { 23 },
+            3 => if i == n / 2 { 3 } else { 24 }, // all at the maximum but one short value in the middle
+            4 => 3,
+            _ => if i % 7 == 3 { 23 } else { 24 },
+        }
+    };
+    let n = match max_hint {
+        // the widest list for which the whole window is reachable with names of 1 ..= n + 8 bytes
+        Some(m) => ((m.saturating_sub(fixed + 8)) / 26).max(1),
+        None => n,
+    };
+    let vals: Vec<f64> = (0..n).map(|i| f64_of_width(r, width_of(i, n))).collect();
+    let body: usize = vals.iter().map(|v| 1 + ryu_text(*v).len()).sum();
+    let max = max_hint.unwrap_or(fixed + body + n + 6);
+    let mut ops = vec![];
+    let mut push = |name_len: usize, ops: &mut Vec<Op>| {
+        let name: String = (0..name_len).map(|i| (b'a' + (i % 26) as u8) as char).collect();
+        ops.push(Op::Write(Call { kind, name, labels: labels.clone(), vals: Vals::F(vals.clone()), ts: None, rate, prefix: prefix.clone(), globals: globals.clone() }));
+        ops.push(Op::Drain);
+    };
+    // (1) the one-payload window: L - max from -(n+4) to +3, every limit (stride 1) or every `stride`-th plus both edges
+    let centre = max as i64 - (fixed + body) as i64; // name length at which the message is exactly `max` bytes long
+    let lo = centre - (n as i64 + 4);
+    let hi = centre + 3;
+    let mut d = lo;
+    while d <= hi {
+        if d >= 0 {
+            push(d as usize, &mut ops);
+        }
+        let near_edge = d - lo < 3 || hi - d <= 6 || (d - (centre - n as i64)).abs() <= 2;
+        d += if near_edge { 1 } else { stride as i64 };
+    }
+    // (2) alignment points of the split: exactly m values fit per payload, +-1 byte, for m = ceil(n/2) and m = 1
+    if n >= 2 {
+        for m in [(n + 1) / 2, 1usize] {
+            let part: usize = vals[..m].iter().map(|v| 1 + ryu_text(*v).len()).sum();
+            for delta in -1i64..=1 {
+                let nl = max as i64 - (fixed + part) as i64 + delta;
+                if nl >= 0 && nl <= 70_000 {
+                    push(nl as usize, &mut ops);
+                }
+            }
+        }
+    }
+    Case { max, lp, ops }
+}
+
+fn run_aimed_stream(cfg: &Cfg, out: &mut Out) {
+    let mut idx = 0u64;
+    let mut go = |out: &mut Out, tag: &str, n: usize, mix: usize, hint: Option<usize>, stride: usize, root: u64| {
+        let mut r = Rng::new(root ^ 0xC09A).fork(idx);
+        idx += 1;
+        out.case(&format!("aimed-values {} n={} mix={} max={:?} #{}", tag, n, mix, hint, idx));
+        let case = gen_aimed_case(&mut r, n, mix, hint, stride);
+        out.count(&format!("aimed.mix{}", mix));
+        out.count_n("aimed.writes", (case.ops.len() / 2) as u64);
+        run_case(out, &case);
+    };
+    // deterministic part (the same for every seed): every limit of the window for short and medium lists, all mixes
+    for &n in &[1usize, 2, 3, 4, 7, 16] {
+        for mix in 0..6 {
+            go(out, "fixed", n, mix, None, 1, 0);
+        }
+    }
+    // the documented default limits with the longest all-wide list whose whole window is reachable (UDP 1432: 54 values, UDS 8192: 314)
+    go(out, "default-udp", 0, 0, Some(1432), 1, 0);
+    go(out, "default-udp", 0, 5, Some(1432), 1, 0);
+    // (the list-based Lean writer is strongly superlinear in the number of values of ONE call: 314 values cost about
+    // 2 s per write in the model, 100 values 20 ms — so the UDS default is scanned with a stride, thorough tier only)
+    go(out, "mid", 0, 0, Some(2600), 1, 0);
+    if cfg.thorough {
+        go(out, "default-uds", 0, 0, Some(8192), 46, 0);
+    }
+    // seeded part: list lengths, mixes and configurations drawn per seed
+    let k = if cfg.thorough { 36 } else { 8 };
+    let mut rs = Rng::new(cfg.seed ^ 0xC09A7);
+    for _ in 0..k {
+        let n = match rs.below(3) {
+            0 => rs.range(1, 8),
+            1 => rs.range(8, 40),
+            _ => rs.range(40, if cfg.thorough { 160 } else { 90 }),
+        };
+        let mix = rs.below(6);
+        let stride = if n > 100 { 7 } else { 1 };
+        go(out, "seeded", n, mix, None, stride, cfg.seed);
+    }
+}
+
 pub fn run(cfg: &Cfg, out: &mut Out) {
     let prev = std::panic::take_hook();
     std::panic::set_hook(Box::new(|_| {}));
@@ -1056,6 +1208,7 @@ pub fn run(cfg: &Cfg, out: &mut Out) {
         out.case(&format!("corpus {}", tag));
         run_case(out, &case);
     }
+    run_aimed_stream(cfg, out);
     let root = Rng::new(cfg.seed ^ 0xC09);
     for i in 0..cfg.cases {
         let mut r = root.fork(i as u64);
@@ -1085,6 +1238,8 @@ pub fn run(cfg: &Cfg, out: &mut Out) {
     run_config_stream(cfg, out);
     // stream D: the forwarder's client state machine on real sockets with an adversarial receiver
     run_forwarder_stream(cfg, out);
+    // stream E: the REAL `Forwarder::run` loop, cycle by cycle, with a send that fails in the middle of a drain
+    run_loop_stream(cfg, out);
     std::panic::set_hook(prev);
 }
 
@@ -2268,4 +2423,345 @@ pub(crate) fn run_forwarder_stream(cfg: &Cfg, out: &mut Out) {
         run_fwd_case(out, stream, max, &pool, &script, idx);
         idx += 1;
     }
+}
+
+// ---------------------------------------------------------------------------------------------
+// stream E (round 7): the real `Forwarder::run` loop (forwarder/sync.rs), cycle by cycle.
+//
+// An exporter is built through the public builder; the `#[cfg(metrics_verif)]` observer `verif::set_run_observer`
+// is called by the forwarder thread at the end of the payload loop of every cycle with the cycle's `TelemetryUpdate`
+// counters, and BLOCKS there until the harness acknowledges.  While the forwarder is blocked the harness (1) sends a
+// sentinel datagram to the receiving socket and reads everything up to it (so the datagrams of exactly this cycle
+// are known: a unix datagram socket queues in order, and nothing else is sent while the forwarder is blocked),
+// (2) checks the cycle, (3) records the inputs of the next cycle, (4) acknowledges.  Nothing depends on timing: the
+// first cycle(s) before the first acknowledgement are empty (nothing is recorded before the first observer call).
+//
+// mode "unixgram-fault": limit 2^20 on a unix datagram socket; one gauge has a name of 300 000 bytes, so its payload
+// is larger than the socket's send buffer (`wmem_default` 212 992) and `send` fails with EMSGSIZE in EVERY cycle — in
+// the middle of the drain (flush order: counters, gauges, histograms), deterministically and by the kernel alone.
+// The payloads after it (the histogram) must still be attempted and arrive, on a fresh socket; the cycle's counters
+// must say: sent = what arrived (packets and bytes), dropped = the one oversized payload (packets and bytes).
+// modes "udp4" / "udp6": the same over UDP to 127.0.0.1 / ::1 with the default limit and no oversized payload; what
+// the model says about the connect (`sfwd udp`, from the bind call of the CURRENT source) must be what happens.
+// Each cycle also goes to the Lean model (`sfwd cycle`), payloads by their predicted lengths.
+
+type CycleMsg = (metrics_exporter_dogstatsd::verif::RunCycle, std::sync::mpsc::Sender<()>);
+
+fn cycle_routes() -> &'static std::sync::Mutex<std::collections::HashMap<String, std::sync::mpsc::Sender<CycleMsg>>> {
+    static ROUTES: std::sync::OnceLock<std::sync::Mutex<std::collections::HashMap<String, std::sync::mpsc::Sender<CycleMsg>>>> =
+        std::sync::OnceLock::new();
+    ROUTES.get_or_init(|| {
+        metrics_exporter_dogstatsd::verif::set_run_observer(Some(std::sync::Arc::new(|c| {
+            let tx = cycle_routes().lock().unwrap().get(&c.remote).cloned();
+            if let Some(tx) = tx {
+                let (ack_tx, ack_rx) = std::sync::mpsc::channel();
+                if tx.send((c.clone(), ack_tx)).is_ok() {
+                    // released by the harness; a harness that went away releases by dropping the sender
+                    let _ = ack_rx.recv_timeout(std::time::Duration::from_secs(120));
+                }
+            }
+        })));
+        std::sync::Mutex::new(std::collections::HashMap::new())
+    })
+}
+
+fn run_loop_stream(cfg: &Cfg, out: &mut Out) {
+    let modes: &[&str] = if cfg.thorough {
+        &["unixgram-fault", "udp6", "udp4", "unixgram-fault", "unixgram-fault", "udp6"]
+    } else {
+        &["unixgram-fault", "udp6", "udp4"]
+    };
+    for (i, mode) in modes.iter().enumerate() {
+        let mut r = Rng::new(cfg.seed ^ 0xC09E7).fork(i as u64);
+        out.case(&format!("run-loop {} seed={} i={}", mode, cfg.seed, i));
+        run_loop_case(out, &mut r, mode, i, if cfg.thorough { 6 } else { 4 });
+    }
+}
+
+fn run_loop_case(out: &mut Out, r: &mut Rng, mode: &str, idx: usize, cycles: usize) {
+    use metrics::{Key as MKey, Level, Metadata, Recorder};
+    use metrics_exporter_dogstatsd::DogStatsDBuilder;
+    use std::time::Duration;
+    static META: Metadata<'static> = Metadata::new("c09", Level::INFO, None);
+    enum Rx {
+        Unix(std::os::unix::net::UnixDatagram),
+        Udp(std::net::UdpSocket),
+    }
+    let dir = std::env::temp_dir().join(format!("mv-c09-loop-{}-{}", std::process::id(), idx));
+    let _ = std::fs::remove_dir_all(&dir);
+    std::fs::create_dir_all(&dir).unwrap();
+    let path = dir.join("s.sock");
+    let fault = mode == "unixgram-fault";
+    let (rx, addr, remote, sentinel_to): (Rx, String, String, String) = match mode {
+        "unixgram-fault" => {
+            let s = std::os::unix::net::UnixDatagram::bind(&path).unwrap();
+            let p = path.to_str().unwrap().to_string();
+            (Rx::Unix(s), format!("unixgram://{}", p), format!("unixgram://{}", p), p)
+        }
+        _ => {
+            let bind = if mode == "udp6" { "[::1]:0" } else { "127.0.0.1:0" };
+            let s = match std::net::UdpSocket::bind(bind) {
+                Ok(s) => s,
+                Err(_) => {
+                    // no such address family on this machine: nothing to observe
+                    out.count(&format!("runloop.{}.unavailable", mode));
+                    let _ = std::fs::remove_dir_all(&dir);
+                    return;
+                }
+            };
+            let a = s.local_addr().unwrap().to_string(); // "127.0.0.1:port" / "[::1]:port"
+            (Rx::Udp(s), format!("udp://{}", a), format!("udp://{}", a), a)
+        }
+    };
+    // what the model says about this transport's connect (UDP: from the bind call of the current source)
+    let connect_expected = if fault { true } else { udp_model_connects(out, mode) };
+    let prefix = if r.chance(1, 2) { Some(r.pick_str(&["svc", "é"]).to_string()) } else { None };
+    let globals: Vec<(String, String)> = (0..r.below(3)).map(|i| (format!("g{}", i), r.pick_str(&["", "x"]).to_string())).collect();
+    let as_dist = r.chance(1, 2);
+    let (tx, cycle_rx) = std::sync::mpsc::channel::<CycleMsg>();
+    cycle_routes().lock().unwrap().insert(remote.clone(), tx);
+    let mut b = DogStatsDBuilder::default()
+        .with_remote_address(&addr)
+        .expect("address parses")
+        .with_flush_interval(Duration::from_millis(60))
+        .with_telemetry(false)
+        .with_histogram_sampling(false)
+        .send_histograms_as_distributions(as_dist)
+        .with_global_labels(globals.iter().map(|(k, v)| Label::new(k.clone(), v.clone())).collect());
+    if let Some(p) = &prefix {
+        b = b.set_global_prefix(p.clone());
+    }
+    if fault {
+        b = b.with_maximum_payload_length(1 << 20).expect("valid limit");
+    }
+    let recorder = b.build().expect("exporter builds");
+    let own = vec![("k".to_string(), "a".to_string())];
+    let tagsec = tag_section(&globals, &own);
+    let huge_name = "x".repeat(300_000);
+    // handles are registered inside the first blocked window (a registered counter is flushed once with value 0)
+    let mut handles: Option<(metrics::Counter, metrics::Histogram)> = None;
+    let ctx = format!("run-loop {} prefix={:?} globals={:?} dist={}", mode, prefix, globals, as_dist);
+    // reader thread: every datagram, in arrival order
+    let (dg_tx, dg_rx) = std::sync::mpsc::channel::<Vec<u8>>();
+    let stop = std::sync::Arc::new(std::sync::atomic::AtomicBool::new(false));
+    let stop2 = stop.clone();
+    let reader = std::thread::spawn(move || {
+        let mut buf = vec![0u8; 1 << 20];
+        match &rx {
+            Rx::Unix(s) => s.set_read_timeout(Some(Duration::from_millis(50))).unwrap(),
+            Rx::Udp(s) => s.set_read_timeout(Some(Duration::from_millis(50))).unwrap(),
+        }
+        while !stop2.load(std::sync::atomic::Ordering::Relaxed) {
+            let got = match &rx {
+                Rx::Unix(s) => s.recv(&mut buf).ok(),
+                Rx::Udp(s) => s.recv(&mut buf).ok(),
+            };
+            if let Some(k) = got {
+                if dg_tx.send(buf[..k].to_vec()).is_err() {
+                    break;
+                }
+            }
+        }
+    });
+    out.op("sfwd new 0", "ok");
+    // inputs recorded for the coming cycle (none before the first observer call)
+    let mut pending: Option<(u64, Vec<f64>)> = None;
+    let mut gauges_registered = false;
+    let mut observed = 0usize;
+    let mut rx_total = (0u64, 0u64);
+    let mut failed = false;
+    let mut ready_state = false;
+    while observed < cycles {
+        let (cyc, ack) = match cycle_rx.recv_timeout(Duration::from_secs(60)) {
+            Ok(m) => m,
+            Err(_) => {
+                out.oracle_fail(
+                    "forwarder stopped flushing",
+                    &format!("{} :: no flush cycle of Forwarder::run ended within 60 s after {} observed cycles (flush interval 60 ms): the forwarder thread is gone or stuck", ctx, observed),
+                );
+                failed = true;
+                break;
+            }
+        };
+        // the forwarder is blocked now: everything it sent in this cycle is in the receiving socket's queue
+        let sentinel = format!("#sentinel {}", observed);
+        let sent_ok = match mode {
+            "unixgram-fault" => std::os::unix::net::UnixDatagram::unbound().and_then(|s| s.send_to(sentinel.as_bytes(), &sentinel_to)).is_ok(),
+            _ => std::net::UdpSocket::bind(if mode == "udp6" { "[::1]:0" } else { "127.0.0.1:0" })
+                .and_then(|s| s.send_to(sentinel.as_bytes(), &sentinel_to))
+                .is_ok(),
+        };
+        let mut got: Vec<Vec<u8>> = vec![];
+        let mut saw_sentinel = !sent_ok;
+        loop {
+            // after the sentinel: UDP only, a short grace for datagrams of other senders still in the loopback path
+            let wait = if saw_sentinel { Duration::from_millis(if fault { 0 } else { 120 }) } else { Duration::from_secs(20) };
+            match dg_rx.recv_timeout(wait) {
+                Ok(d) if d == sentinel.as_bytes() => saw_sentinel = true,
+                Ok(d) => got.push(d),
+                Err(_) => break,
+            }
+            if saw_sentinel && fault {
+                break;
+            }
+        }
+        // what this cycle must have produced, in flush order: counter, gauges, histogram
+        let mut expect: Vec<(Vec<u8>, bool)> = vec![]; // (payload, must arrive)
+        if let Some((delta, vals)) = &pending {
+            expect.push((format!("{}:{}|c{}\n", wire_name(&prefix, "reqs"), delta, tagsec).into_bytes(), connect_expected));
+            expect.push((format!("datadog.dogstatsd.client.depth:2.5|g{}\n", tagsec).into_bytes(), connect_expected));
+            if fault {
+                expect.push((format!("{}:1.5|g{}\n", wire_name(&prefix, &huge_name), tagsec).into_bytes(), false));
+            }
+            let vt: Vec<String> = vals.iter().map(|v| ryu_text(*v)).collect();
+            expect.push((format!("{}:{}|{}{}\n", wire_name(&prefix, "lat"), vt.join(":"), if as_dist { "d" } else { "h" }, tagsec).into_bytes(), connect_expected));
+        }
+        let n_expect_rx = expect.iter().filter(|e| e.1).count();
+        // model: the payload loop of this cycle.  Environment per payload: connects succeed iff the model's connect
+        // verdict says so; the oversized datagram is refused by the socket
+        let items: Vec<String> = expect
+            .iter()
+            .map(|(p, arrives)| format!("{}:{}:{}", p.len(), if connect_expected { "c1" } else { "c0" }, if *arrives || !connect_expected { "full" } else { "f0" }))
+            .collect();
+        rx_total.0 += got.len() as u64;
+        rx_total.1 += got.iter().map(|d| d.len() as u64).sum::<u64>();
+        // `Ready` after the cycle iff its last send succeeded (an empty cycle leaves the client as it was)
+        if let Some(last) = expect.last() {
+            ready_state = last.1;
+        }
+        let s = &cyc.send;
+        out.op(
+            &format!("sfwd cycle {}", if items.is_empty() { ".".to_string() } else { items.join(",") }),
+            &format!(
+                "sent={} bytes_sent={} dropped={} dropped_writer={} bytes_dropped={} bytes_dropped_writer={} rx={}/{} {}",
+                s.packets_sent, s.bytes_sent, s.packets_dropped, s.packets_dropped_writer, s.bytes_dropped, s.bytes_dropped_writer, rx_total.0, rx_total.1,
+                if ready_state { "ready" } else { "disc" }
+            ),
+        );
+        out.count(&format!("runloop.{}.cycles", mode));
+        out.count_n(&format!("runloop.{}.datagrams", mode), got.len() as u64);
+        // implementation-side oracles (independent of the model)
+        // (a) counts are truthful: sent = what arrived, dropped = what was emitted and did not arrive
+        let lossy = !fault && (got.len() as u64) < s.packets_sent; // UDP may lose datagrams, a unix datagram socket may not
+        if lossy {
+            out.count("runloop.udp_loss");
+        }
+        if !lossy && (s.packets_sent != got.len() as u64 || s.bytes_sent != got.iter().map(|d| d.len() as u64).sum::<u64>()) {
+            out.oracle_fail(
+                "reported sent/dropped payload counts differ from what was emitted",
+                &format!("{} cycle {} :: the forwarder counted {} payloads / {} bytes as sent, the receiver got {} datagrams / {} bytes", ctx, observed, s.packets_sent, s.bytes_sent, got.len(), got.iter().map(|d| d.len()).sum::<usize>()),
+            );
+            failed = true;
+        }
+        let exp_dropped: Vec<&(Vec<u8>, bool)> = expect.iter().filter(|e| !e.1).collect();
+        let exp_dropped_bytes: u64 = exp_dropped.iter().map(|e| e.0.len() as u64).sum();
+        if s.packets_dropped != exp_dropped.len() as u64
+            || s.packets_dropped_writer != exp_dropped.len() as u64
+            || s.bytes_dropped != exp_dropped_bytes
+            || s.bytes_dropped_writer != exp_dropped_bytes
+            || s.packets_sent + s.packets_dropped != expect.len() as u64
+        {
+            out.oracle_fail(
+                "reported sent/dropped payload counts differ from what was emitted",
+                &format!(
+                    "{} cycle {} :: the flush emitted {} payloads of which {} ({} bytes) cannot be delivered; the forwarder counted sent={} dropped={} dropped_writer={} bytes_dropped={} bytes_dropped_writer={}",
+                    ctx, observed, expect.len(), exp_dropped.len(), exp_dropped_bytes, s.packets_sent, s.packets_dropped, s.packets_dropped_writer, s.bytes_dropped, s.bytes_dropped_writer
+                ),
+            );
+            failed = true;
+        }
+        // (b) every payload that can be delivered arrives exactly once, byte for byte — in particular those AFTER the
+        // failed one (histogram values compared as a multiset: block order is the bucket's business)
+        if !lossy {
+            let canon = |p: &[u8]| -> String {
+                match parse_datagram(p) {
+                    Ok(d) if d.ty == "h" || d.ty == "d" => {
+                        let mut v: Vec<u64> = d.values.iter().map(|x| x.parse::<f64>().map_or(0, |f| f.to_bits())).collect();
+                        v.sort();
+                        format!("{}|{}|{:?}|{:?}|{:?}|{:?}", d.name, d.ty, v, d.rate, d.tags, d.ts)
+                    }
+                    _ => hex(p),
+                }
+            };
+            let mut want: Vec<String> = expect.iter().filter(|e| e.1).map(|e| canon(&e.0)).collect();
+            let mut have: Vec<String> = got.iter().map(|d| canon(d)).collect();
+            want.sort();
+            have.sort();
+            if want != have {
+                let missing: Vec<&String> = want.iter().filter(|w| !have.contains(w)).collect();
+                out.oracle_fail(
+                    "points emitted + points dropped differs from the number of input points",
+                    &format!(
+                        "{} cycle {} :: {} payloads expected at the receiver, {} arrived; missing (first): {:.200}; a payload after a failed send was not attempted, or one was sent twice / altered",
+                        ctx, observed, n_expect_rx, got.len(), missing.first().map_or("-".to_string(), |m| m.to_string())
+                    ),
+                );
+                failed = true;
+            }
+        }
+        for d in &got {
+            if parse_datagram(d).is_err() {
+                out.oracle_fail("emitted payload is not a DogStatsD datagram", &format!("{} cycle {} :: {}", ctx, observed, hex(&d[..d.len().min(200)])));
+                failed = true;
+            }
+        }
+        observed += 1;
+        if failed {
+            drop(ack);
+            break;
+        }
+        // the next cycle's inputs, recorded while the forwarder is blocked
+        if !gauges_registered {
+            gauges_registered = true;
+            recorder.register_gauge(&MKey::from_parts("datadog.dogstatsd.client.depth", vec![Label::new("k", "a")]), &META).set(2.5);
+            if fault {
+                recorder.register_gauge(&MKey::from_parts(huge_name.clone(), vec![Label::new("k", "a")]), &META).set(1.5);
+            }
+        }
+        let (counter, hist) = handles.get_or_insert_with(|| {
+            (
+                recorder.register_counter(&MKey::from_parts("reqs", vec![Label::new("k", "a")]), &META),
+                recorder.register_histogram(&MKey::from_parts("lat", vec![Label::new("k", "a")]), &META),
+            )
+        });
+        let delta = r.range(1, 1000) as u64;
+        counter.increment(delta);
+        let vals: Vec<f64> = (0..r.range(1, 40)).map(|_| if r.chance(1, 3) { long_f64(r) } else { (r.below(100_000) as f64) / 8.0 }).collect();
+        for v in &vals {
+            hist.record(*v);
+        }
+        pending = Some((delta, vals));
+        let _ = ack.send(());
+    }
+    // release the forwarder for good (it keeps flushing an idle registry; the route is gone, so it never blocks again)
+    cycle_routes().lock().unwrap().remove(&remote);
+    while let Ok((_, ack)) = cycle_rx.try_recv() {
+        let _ = ack.send(());
+    }
+    stop.store(true, std::sync::atomic::Ordering::Relaxed);
+    let _ = reader.join();
+    let _ = std::fs::remove_dir_all(&dir);
+    if observed >= 2 {
+        out.nontrivial();
+    }
+}
+
+/// `sfwd udp <family>`: the model's verdict on connecting the UDP client of the current source to an address of this
+/// family, compared with what the real client does (`verif::ForwarderClient` is not needed: one `try_send`-free probe
+/// would not be the exporter; the exporter's own cycles below are the observation, this op only fetches the verdict).
+fn udp_model_connects(out: &mut Out, mode: &str) -> bool {
+    // the real code's verdict, observed directly on the forwarder's client: connect a client of the exporter's
+    // configuration to a live socket of this family and look at the result of the first send
+    let fam = if mode == "udp6" { "v6" } else { "v4" };
+    let bind = if mode == "udp6" { "[::1]:0" } else { "127.0.0.1:0" };
+    let rx = match std::net::UdpSocket::bind(bind) {
+        Ok(s) => s,
+        Err(_) => return false,
+    };
+    let addr = format!("udp://{}", rx.local_addr().unwrap());
+    let mut client = metrics_exporter_dogstatsd::verif::ForwarderClient::new(&addr, 1432, std::time::Duration::from_secs(1)).expect("address parses");
+    let ok = client.try_send(b"probe:1|c\n").is_ok();
+    out.op(&format!("sfwd udp {}", fam), if ok { "connect=ok" } else { "connect=refused" });
+    out.count(&format!("runloop.udp.{}.{}", fam, if ok { "connects" } else { "refused" }));
+    ok
 }
